@@ -13,13 +13,13 @@ ALIASES = ("AES-CBC", "aes-cbc", "AES_CBC", "aescbc", "AesCbc")
 
 def plan(tier, seed):
     specs = []
-    nkeys = 8 if tier == "quick" else 24
+    nkeys = 8 if tier == "quick" else 400
     for kl in KEY_LENGTHS:
         specs.append({"name": f"exh-k{kl}", "kind": "exh", "key_length": kl, "keys": nkeys, "max_len": 80})
     nr = 6 if tier == "quick" else 13
     for i in range(nr):
-        specs.append({"name": f"rand{i}", "kind": "rand", "index": i, "cases": 1500 if tier == "quick" else 20000,
-                      "budget_s": 60 if tier == "quick" else 600})
+        specs.append({"name": f"rand{i}", "kind": "rand", "index": i, "cases": 8000 if tier == "quick" else 400000,
+                      "budget_s": 60 if tier == "quick" else 420})
     specs.append({"name": "contracts", "kind": "contracts"})
     return specs
 
